@@ -15,14 +15,29 @@ TRUSTED_BASE = [
     "model) is not proved in Lean: it is tested with EXACT equality in rational arithmetic inside the model (R from the step-down "
     "recursion of the Burg model, inverse by Gauss-Jordan elimination) on dyadic data",
 ]
-PARTIAL = []
-ASSUMPTIONS = ["NFFT >= 2m (no overlap of the two halves of psi); non-degenerate Burg error (rho_k >= 1e-9 rho_0)"]
+PARTIAL = ["histories (kind reuse) are sampled, not exhausted: 36 (quick) / 150 per round (thorough) random histories of 8..60 operations; "
+           "whether an identity-based (id() / address) staleness bug manifests depends on the allocator state of the process, so the "
+           "same history is run with records built on the spot and with records kept by the caller"]
+ASSUMPTIONS = ["NFFT >= 2m (no overlap of the two halves of psi); non-degenerate Burg error (rho_k >= 1e-9 rho_0)",
+               "histories: the statement is read as 'the estimate of the data the object holds at the time of the read, with the order / "
+               "NFFT / sampling it holds then'; .ar / .reflection are compared only after psd has been read or p() called (they are plain "
+               "attributes that the class fills during the computation); after the caller has modified its own array in place the "
+               "reference is the current content of .data (the unchanged class copies what it is handed, so this is the record as handed "
+               "over)"]
 RULE = ("real/complex data (noise, tones in noise, integer, trend) of length 8..128 x m in 2..min(N/2,16) x NFFT >= 2m even/odd "
         "(the boundaries 2m and 2m+1 for every m in 2..8, NFFT < 32, primes, powers of two up to the default 4096) x "
         "sampling in {0.01, 0.5, 1, 2.5, 3 (int), 100}; containers handed to the API: float64/complex128 arrays, int64 / int16 "
         "arrays, lists, complex arrays with zero imaginary part; smallest sizes (N=8 m=4 NFFT=8, N=8 m=2 NFFT=4, N=9 m=4 NFFT=9, "
         "N=32 m=16 NFFT=32); call forms: defaults, positional, keyword; class form with scale_by_freq off/on, its ar / reflection "
-        "attributes; exact identity cases N <= 16, m <= 5")
+        "attributes; exact identity cases N <= 16, m <= 5; HISTORIES on re-used pminvar objects (kind reuse: 1 object, or 2-3 objects "
+        "with equal N / order alive at once, operations interleaved): records of a pool assigned to .data once, twice before the next "
+        "read (load + remove the mean / taper / gain; a then b), 3-5 times, in place (*=, -=), from itself, handed over as temporaries "
+        "that are freed at once (no reference to any intermediate array is kept by the executing pass: CPython recycles their id() / "
+        "address) or as arrays / views / lists the caller keeps, same and changing record length, real, complex and real<->complex on "
+        "one object, amplitudes 2^-40..2^40; ar_order / NFFT / sampling / scale_by_freq changed in between; computations that fail "
+        "in between (order 0 read / called, rejected NFFT); the caller modifying in place the arrays it handed to the constructor / "
+        "setter; observations by reading psd (once, twice) or after an explicit p(): psd, ar, reflection each equal (per bin, 1e-13) "
+        "to minvar and to a fresh pminvar on the final attribute values, and the independent quadratic form on the last state")
 
 
 def _sp():
@@ -342,7 +357,335 @@ def _tags_class(p):
     return t
 
 
+# ---- histories on re-used pminvar objects -----------------------------------------------------------------------------------------
+# The statement is observed at pminvar.psd (and .ar / .reflection, "the Burg vectors it used"); an estimator object is a
+# container that is re-used (new records assigned to .data, order / NFFT / sampling changed, explicit p() calls).  Whatever the
+# history, every observation must be the minimum-variance estimate OF THE DATA THE OBJECT HOLDS NOW, with the order / NFFT /
+# sampling it holds now: i.e. what the function minvar and a freshly built object return for the final attribute values.
+#
+# params:  recs   K x Nmax array (float64 or complex128): the pool of records
+#          init   one record source per object (several objects may be alive at once)
+#          m, nfft, fs, scale   constructor arguments (the same for every object: equal N / order is the interesting case for
+#                               state shared through the module or the class)
+#          ops    list of [object index, name, args...]
+# a record source is [i, n, re]: the first n samples of record i (re = 1: their real part only).
+#
+# IMPORTANT (process-global state): CPython hands the address (= id()) of a freed ndarray to the next ndarray that is created.
+# Code that recognises "the data did not change" by object identity is wrong exactly when the intermediate arrays of a history
+# have been freed.  The executing pass (_run_history) therefore never binds a record, a temporary or `o.data` to a name that
+# outlives the statement; the expected values are computed in a SEPARATE pass (_expected_states) from params alone.
+
+REUSE_GAINS = [2.0, 0.5, -1.0, 3.0, 1e-3, 1024.0]
+
+
+def _src(p, s):
+    """a NEW array holding the record source s (nothing else refers to it)"""
+    i, n, re = s
+    r = p["recs"][int(i)][:int(n)]
+    return np.array(r.real if re else r)
+
+
+def _src_as(p, s, how):
+    """the record in the container the history hands to the object: "new" a temporary array, "view" a view of the pool (strided
+    when the real part of a complex record is taken), "list" a python list"""
+    if how == "view":
+        i, n, re = s
+        r = p["recs"][int(i)][:int(n)]
+        return r.real if re else r
+    if how == "list":
+        r = _src(p, s)
+        return [complex(v) for v in r] if np.iscomplexobj(r) else [float(v) for v in r]
+    return _src(p, s)
+
+
+def _taper(n):
+    return 0.54 - 0.46 * np.cos(2 * np.pi * (np.arange(n) + 0.5) / n)
+
+
+def _data_op_expected(p, cur, name, a):
+    """the value of .data after a data operation (same arithmetic, on the harness' own arrays)"""
+    if name in ("set", "set-keep"):
+        return _src(p, a[0])
+    if name == "set-demean":
+        r = _src(p, a[0])
+        return r - r.mean()
+    if name == "set-window":
+        r = _src(p, a[0])
+        return r * _taper(len(r))
+    if name == "set-gain":
+        return _src(p, a[0]) * a[1]
+    if name == "set-set":
+        return _src(p, a[1])
+    if name == "set-many":
+        return _src(p, a[-1])
+    if name == "inplace-gain":
+        return cur * a[0]
+    if name in ("inplace-demean", "self-demean"):
+        return cur - cur.mean()
+    if name == "self-self":
+        r = cur * a[0]
+        return r - r.mean()
+    raise ValueError(name)
+
+
+DATA_OPS = ("set", "set-keep", "set-demean", "set-window", "set-gain", "set-set", "set-many", "inplace-gain", "inplace-demean", "self-demean", "self-self")
+
+
+def _rec(p, pool, s, how="new"):
+    """the record source s as the history hands it to the object.  pool None ("temp" histories): a temporary built on the spot,
+    freed after the statement; otherwise ("kept" histories) the caller's own array of that record, which the caller keeps for the
+    whole history (what is never kept, in both modes, is an array the OBJECT made or an intermediate result)"""
+    if pool is None:
+        return _src_as(p, s, how)
+    base = pool[(int(s[0]), int(s[1]), int(s[2]))]
+    return base[:] if how == "view" else base.tolist() if how == "list" else base
+
+
+def _data_op_execute(o, p, name, a, pool=None):
+    """the same operation on the object, written the way a script writes it.  No temporary / o.data is bound to a local
+    name: every intermediate array is freed as soon as the statement that made it has run."""
+    if name == "set":
+        o.data = _rec(p, pool, a[0], a[1])
+    elif name == "set-demean":                     # load, then remove the mean
+        o.data = _rec(p, pool, a[0])
+        o.data = o.data - o.data.mean()
+    elif name == "set-window":                     # load, then taper (the taper computed on the spot / kept by the caller)
+        o.data = _rec(p, pool, a[0])
+        if pool is None:
+            o.data = o.data * _taper(o.N)
+        else:
+            o.data = o.data * pool["taper", int(a[0][1])]
+    elif name == "set-gain":
+        o.data = _rec(p, pool, a[0])
+        o.data = o.data * a[1]
+    elif name == "set-set":                        # two assignments before the next read
+        o.data = _rec(p, pool, a[0], a[2])
+        o.data = _rec(p, pool, a[1], a[2])
+    elif name == "set-many":                       # three or more assignments before the next read
+        for s in a:
+            o.data = _rec(p, pool, s)
+    elif name == "inplace-gain":
+        o.data *= a[0]
+    elif name == "inplace-demean":
+        o.data -= o.data.mean()
+    elif name == "self-demean":
+        o.data = o.data - o.data.mean()
+    elif name == "self-self":
+        o.data = o.data * a[0]
+        o.data = o.data - o.data.mean()
+    else:
+        raise ValueError(name)
+
+
+def _expected_states(p, final=False):
+    """pass B: the attribute values every object holds at each "check" operation, from params alone (pure numpy, the library is
+    not involved).  Yields (op index, object index, state dict, check mode); with final=True, instead, the states after the last
+    operation (mode "final")."""
+    st = [{"x": _src(p, s), "m": int(p["m"]), "nfft": int(p["nfft"]), "fs": p["fs"], "scale": bool(p.get("scale", False)), "alias": False}
+          for s in p["init"]]
+    for j, op in enumerate(p["ops"]):
+        k, name, a = int(op[0]), op[1], list(op[2:])
+        s = st[k]
+        if name != "check":
+            s["last"] = "op %d %r" % (j, name)
+        if name in DATA_OPS:
+            s["x"] = _data_op_expected(p, s["x"], name, a)
+            s["alias"] = False
+        elif name == "order":
+            s["m"] = int(a[0])
+        elif name == "nfft":
+            s["nfft"] = int(a[0])
+        elif name == "fs":
+            s["fs"] = a[0]
+        elif name == "scale":
+            s["scale"] = bool(a[0])
+        elif name == "mutate-caller":
+            s["alias"] = True
+        elif name == "fail":
+            pass
+        elif name == "check":
+            if not final:
+                yield j, k, dict(s), a[0]
+        else:
+            raise ValueError(name)
+    if final:
+        for k, s in enumerate(st):
+            yield len(p["ops"]), k, dict(s), "final"
+
+
+def _run_history(sp, p):
+    """pass A: the history on the real objects; returns the observations [(psd, ar, reflection, data held, psd read again)] made
+    at the "check" operations (copies of the attribute values, taken after the read)"""
+    p = dict(p, recs=np.array(p["recs"]))          # a working copy of the pool: views of it are handed to the objects
+    callers = [_src(p, s) for s in p["init"]]      # the arrays the caller hands to the constructors (the caller keeps them)
+    pool = None
+    if p.get("pool") == "kept":
+        pool = {}
+        for op in p["ops"]:
+            for s in op[2:]:
+                if isinstance(s, (list, tuple)) and len(s) == 3:
+                    pool.setdefault((int(s[0]), int(s[1]), int(s[2])), _src(p, s))
+                    pool.setdefault(("taper", int(s[1])), _taper(int(s[1])))
+    objs = [sp.pminvar(x, int(p["m"]), NFFT=int(p["nfft"]), sampling=p["fs"], scale_by_freq=bool(p.get("scale", False))) for x in callers]
+    obs = []
+    for op in p["ops"]:
+        k, name, a = int(op[0]), op[1], list(op[2:])
+        o = objs[k]
+        if name == "set-keep":                    # the caller keeps the array it assigns (and may modify it later)
+            callers[k] = _src(p, a[0])
+            o.data = callers[k]
+        elif name in DATA_OPS:
+            _data_op_execute(o, p, name, a, pool)
+        elif name == "order":
+            o.ar_order = int(a[0])
+        elif name == "nfft":
+            o.NFFT = int(a[0])
+        elif name == "fs":
+            o.sampling = a[0]
+        elif name == "scale":
+            o.scale_by_freq = bool(a[0])
+        elif name == "mutate-caller":
+            # the caller goes on using ITS array (the one handed to the constructor) for something else
+            callers[k] *= -3.0
+            callers[k][::2] += 1.0 + np.abs(callers[k]).max()
+        elif name == "fail":
+            # a computation that fails in the middle of the history (the exception is the caller's business and is dropped);
+            # the object is then given valid values again
+            if a[0] == "order0":
+                keep = o.ar_order
+                o.ar_order = 0
+                try:
+                    o.psd
+                except Exception:
+                    pass
+                o.ar_order = keep
+            elif a[0] == "call-order0":
+                keep = o.ar_order
+                o.ar_order = 0
+                try:
+                    o()
+                except Exception:
+                    pass
+                o.ar_order = keep
+            else:                               # a rejected NFFT value: the setter raises, nothing changes
+                try:
+                    o.NFFT = 2.5
+                except Exception:
+                    pass
+        elif name == "check":
+            mode = a[0]
+            if mode == "call":                  # explicit computation, then the attributes
+                o()
+                ar, refl = np.array(o.ar), np.array(o.reflection)
+                psd = np.array(o.psd)
+            else:                               # reading psd computes what is needed
+                psd = np.array(o.psd)
+                ar, refl = np.array(o.ar), np.array(o.reflection)
+            again = np.array(o.psd) if mode == "psd2" else None
+            obs.append((psd, ar, refl, np.array(o.data), again))
+        else:
+            raise ValueError(name)
+    return obs, objs
+
+
+def _binrel(a, b):
+    """PER-BIN relative deviation (a minimum-variance spectrum of a tone record spans many decades)"""
+    a, b = np.asarray(a), np.asarray(b)
+    if a.shape != b.shape or not (np.all(np.isfinite(a)) and np.all(np.isfinite(b))):
+        return float("inf")
+    if a.size == 0:
+        return 0.0
+    d = np.abs(a - b)
+    s = np.maximum(np.abs(a), np.abs(b))
+    return float(np.max(np.where(d == 0, 0.0, d / np.where(s == 0, 1.0, s))))
+
+
+# measured on the unchanged tree (quick seeds 0..9 and one thorough run): the object's psd / ar / reflection after a history are
+# BITWISE equal (deviation 0.0) to those of minvar / a fresh pminvar on the final attribute values - it is the same code on the same
+# numbers; the only rounding that may differ is the scale_by_freq factor (2 pi / df on the object, written 2 pi NFFT / sampling here:
+# <= 2 ulp = 4.4e-16 observed).  1e-13 is > 200 x that.
+REUSE_TOL = 1e-13
+
+
+def oracle_reuse(p):
+    sp = _sp()
+    obs, objs = _run_history(sp, p)
+    out = []
+    for (j, k, s, mode), (psd, ar, refl, held, again) in zip(_expected_states(p), obs):
+        x, m, nfft, fs, scale = s["x"], s["m"], s["nfft"], s["fs"], s["scale"]
+        what = "object %d, check at op %d, its last change %s: N=%d m=%d NFFT=%d fs=%s %s" % (k, j, s.get("last", "the constructor"), len(x), m, nfft, fs,
+                                                                                          "complex" if np.iscomplexobj(x) else "real")
+        if s["alias"]:
+            # the caller has modified, in place, the array it had handed to the constructor.  The statement is about the data the
+            # object holds: the observation must be the estimate of what .data holds NOW (the unchanged library copies the
+            # caller's array, so that this is the record as it was handed over; an object that shares the caller's memory and
+            # serves an estimate computed before the modification breaks the statement)
+            if held.shape != x.shape or held.dtype != x.dtype or not np.array_equal(held, x):
+                x = held
+                what += " [.data follows the caller's array]"
+        elif held.shape != x.shape or not np.array_equal(held, x):
+            out.append("pminvar.data does not hold the assigned record (%s)" % what)
+            continue
+        is_c = np.iscomplexobj(x)
+        fpsd, fA, fk = sp.minvar(x, m, sampling=fs, NFFT=nfft)
+        ref = _fold(np.asarray(fpsd), is_c, nfft) * (2 * np.pi * nfft / fs if scale else 1.0)
+        if psd.shape != ref.shape or _binrel(psd, ref) > REUSE_TOL:
+            out.append("re-used pminvar: psd is not the minimum-variance estimate of the data it holds (per-bin rel err %.2e vs minvar; %s)" % (
+                _binrel(psd, ref) if psd.shape == ref.shape else float("inf"), what))
+        if not (np.all(np.isfinite(psd)) and np.all(psd > 0) and not np.iscomplexobj(psd)):
+            out.append("re-used pminvar: psd is not real, finite and strictly positive (%s)" % what)
+        if _binrel(c(ar), c(fA)) > REUSE_TOL:
+            out.append("re-used pminvar: .ar is not the Burg AR vector of the data it holds (rel err %.2e; %s)" % (_binrel(c(ar), c(fA)), what))
+        if _binrel(c(refl), c(fk)) > REUSE_TOL:
+            out.append("re-used pminvar: .reflection is not the Burg reflection vector of the data it holds (rel err %.2e; %s)" % (
+                _binrel(c(refl), c(fk)), what))
+        if again is not None and not np.array_equal(again, psd):
+            out.append("re-used pminvar: reading psd twice gives two different estimates (%s)" % what)
+        fresh = sp.pminvar(x, m, NFFT=nfft, sampling=fs, scale_by_freq=scale)
+        fp = np.asarray(fresh.psd)
+        if fp.shape != psd.shape or _binrel(psd, fp) > REUSE_TOL or _binrel(c(ar), c(fresh.ar)) > REUSE_TOL or _binrel(c(refl), c(fresh.reflection)) > REUSE_TOL:
+            out.append("re-used pminvar differs from a fresh pminvar with the same attribute values (psd per-bin rel err %.2e; %s)" % (
+                _binrel(psd, fp) if fp.shape == psd.shape else float("inf"), what))
+        if len(out) >= 4:
+            break
+    # the statement itself (independent numpy reference) on the state of every object after the last operation
+    if not out:
+        for j, k, s, mode in _expected_states(p, final=True):
+            x = s["x"]
+            if s["alias"]:
+                x = np.array(objs[k].data)
+            out += _check_class_output(objs[k], x, x, s["m"], s["nfft"], s["fs"], s["scale"], "object %d after the whole history, N=%d m=%d NFFT=%d fs=%s %s" % (
+                k, len(x), s["m"], s["nfft"], s["fs"], "complex" if np.iscomplexobj(x) else "real"))
+    return out
+
+
+def _tags_reuse(p):
+    recs = np.asarray(p["recs"])
+    ops = p["ops"]
+    srcs = [s for op in ops for s in op[2:] if isinstance(s, (list, tuple)) and len(s) == 3] + list(p["init"])
+    re = set(int(s[2]) for s in srcs)
+    t = ["reuse:objects=%d" % len(p["init"]), "reuse:flavour=%s" % p.get("flavour"), "reuse:records=%s" % p.get("pool", "temp"),
+         "reuse:" + ("real" if not np.iscomplexobj(recs) else "complex" if re == {0} else "real<->complex"),
+         "reuse:checks=%s" % ("<=4" if sum(1 for op in ops if op[1] == "check") <= 4 else "5..12" if sum(1 for op in ops if op[1] == "check") <= 12 else ">12")]
+    if len(set(int(s[1]) for s in srcs)) > 1:
+        t.append("reuse:length-changes")
+    if p.get("amp"):
+        t.append("reuse:amp=2^%d" % p["amp"])
+    for op in ops:
+        t.append("reuse-op:%s%s" % (op[1], ":" + str(op[2]) if op[1] in ("check", "fail") else
+                                    ":" + str(op[-1]) if op[1] in ("set", "set-set") else ":%d" % (len(op) - 2) if op[1] == "set-many" else ""))
+    return t
+
+
+def _key_reuse(p):
+    import zlib
+    recs = np.ascontiguousarray(p["recs"])
+    return "reuse|%s|%d|%s|%s|%s|%d" % (recs.shape, zlib.crc32(recs.tobytes()), p["m"], p["nfft"], p["fs"],
+                                       zlib.crc32(repr([list(op) for op in p["ops"]]).encode()))
+
+
 KINDS = {
+    "reuse": {"oracle": oracle_reuse, "key": _key_reuse, "tags": _tags_reuse},
     "minvar": {"impl": impl_minvar, "model": model_minvar, "oracle": oracle_minvar, "rtol": 1e-7, "atol": 1e-300, "key": _key, "tags": _tags},
     "class": {"oracle": oracle_class, "key": _key, "tags": _tags_class},
     "forms": {"oracle": oracle_forms, "key": _key, "tags": lambda p: ["form:" + p["form"]]},
@@ -490,3 +833,152 @@ def gen(rng, nrng, tier):
             continue
         nfft = 16 if i < 2 * len(FORMS) else [2 * m, 2 * m + 1, 4 * m, 33, 64][(i // len(FORMS)) % 5]
         yield ("forms", {"x": x, "m": m, "nfft": max(nfft, 2 * m), "form": form})
+
+    # (6) histories on re-used estimator objects (kind "reuse"): see _gen_reuse
+    yield from _gen_reuse(nrng, tier)
+
+
+FS_REUSE = [1.0, 2.5, 100.0, 0.01, 0.5, 3]
+
+
+def _gen_reuse(nrng, tier):
+    """ONE pminvar object (or 2-3 objects with equal N / order alive at once) carried through a history: records assigned to
+    .data once, twice (load + remove the mean / taper / gain; a; b), three times, in place, from itself, as temporaries /
+    views of a pool / lists / arrays the caller keeps (and modifies afterwards), same and changing length, real, complex and
+    real<->complex; ar_order / NFFT / sampling / scale_by_freq changed; computations that fail in between; observations by
+    reading psd (once, twice) or after an explicit p().  Flavours: "batch" (a loop over the records of a pool with the same
+    double-assignment idiom, same N and order throughout: the ordinary batch script), "walk" (random mixture of everything),
+    "multi" (several objects, operations interleaved), "alias" (the caller modifies the arrays it handed over)."""
+    quick = tier == "quick"
+    kinds = ["noise", "tone", "int", "trend"]
+    flavours = ["batch", "walk", "multi", "batch", "walk", "alias"]
+    double = ["set-demean", "set-set", "set-window", "set-gain", "set-many", "self-self"]
+    ncase = 36 if quick else 150
+    for ci in range(ncase):
+        fl = flavours[ci % len(flavours)]
+        ctype = ["real", "complex", "mixed"][(ci // len(flavours) + ci) % 3]
+        cplx = ctype != "real"
+        K = int(nrng.integers(3, 7))
+        N = int(nrng.integers(8, 129)) if ci % 4 else [8, 9, 16, 128][(ci // 4) % 4]
+        amp = [0, 0, 0, 40, -40, 0, 10][ci % 7]
+        recs = []
+        for r in range(K):
+            x, _ = gen_data(nrng, N, cplx, kind=kinds[(ci + r) % 4])
+            x = np.asarray(x, dtype=complex if cplx else float)
+            # every record has its own offset: removing the mean is a real change of the record
+            recs.append((x + (float(nrng.integers(1, 9)) if r % 3 != 2 else 0.0)) * 2.0 ** amp)
+        recs = np.array(recs)
+        nobj = 1 if fl in ("batch", "walk") else int(nrng.integers(2, 4)) if fl == "multi" else 1 + ci % 2
+        m = int(nrng.integers(2, min(N // 2, 16) + 1)) if ci % 5 else min(N // 2, 16)
+        nfft = [2 * m, 2 * m + 1, max(2 * m, N), max(2 * m, N + 1), 64, 33, 128][ci % 7]
+        nfft = max(nfft, 2 * m)
+        fs = FS_REUSE[ci % len(FS_REUSE)]
+
+        def src(n=None, k=None):
+            i = int(nrng.integers(0, K)) if k is None else k
+            re = int(ctype == "mixed" and nrng.integers(0, 2) == 1)
+            return [i, N if n is None else n, re]
+
+        init = [src(k=k % K) for k in range(nobj)]
+        st = [{"n": N, "m": m, "nfft": nfft} for _ in range(nobj)]
+        ops = []
+
+        def check(k, mode=None):
+            ops.append([k, "check", mode or ["psd", "call", "psd", "psd2"][int(nrng.integers(0, 4))]])
+
+        def data_op(k, name, n=None):
+            n = st[k]["n"] if n is None else n
+            if name in ("set", "set-set"):
+                how = ["new", "view", "list"][int(nrng.integers(0, 3))]
+                ops.append([k, name, src(n), how] if name == "set" else [k, name, src(n), src(n), how])
+            elif name == "set-many":
+                ops.append([k, name] + [src(n) for _ in range(int(nrng.integers(3, 6)))])
+            elif name in ("set-gain",):
+                ops.append([k, name, src(n), REUSE_GAINS[int(nrng.integers(0, len(REUSE_GAINS)))]])
+            elif name in ("inplace-gain", "self-self"):
+                ops.append([k, name, REUSE_GAINS[int(nrng.integers(0, len(REUSE_GAINS)))]])
+            elif name in ("inplace-demean", "self-demean"):
+                ops.append([k, name])
+            else:
+                ops.append([k, name, src(n)])
+            st[k]["n"] = n
+
+        def attr_op(k):
+            s = st[k]
+            w = int(nrng.integers(0, 4))
+            if w == 0:
+                s["m"] = int(nrng.integers(2, min(s["n"] // 2, 16) + 1))
+                ops.append([k, "order", s["m"]])
+                if s["nfft"] < 2 * s["m"]:
+                    s["nfft"] = 2 * s["m"] + int(nrng.integers(0, 2))
+                    ops.append([k, "nfft", s["nfft"]])
+            elif w == 1:
+                s["nfft"] = int(nrng.integers(2 * s["m"], 2 * s["m"] + 140))
+                ops.append([k, "nfft", s["nfft"]])
+            elif w == 2:
+                ops.append([k, "fs", FS_REUSE[int(nrng.integers(0, len(FS_REUSE)))]])
+            else:
+                ops.append([k, "scale", bool(nrng.integers(0, 2))])
+
+        if fl == "batch":
+            # the first record is read (a fit exists), then every further record goes through the SAME idiom
+            idiom = double[(ci // len(flavours)) % len(double)]
+            check(0, "psd" if ci % 2 else "call")
+            for r in range(int(nrng.integers(3, 7))):
+                data_op(0, idiom)
+                check(0, "psd" if (ci + r) % 3 else "call")
+                if r % 2 and ci % 3 == 0:          # refine the grid on the same record, and back
+                    ops.append([0, "nfft", 2 * nfft + 1])
+                    check(0, "psd")
+                    ops.append([0, "nfft", nfft])
+        elif fl in ("walk", "multi"):
+            allops = double + ["set", "set", "set-keep", "inplace-gain", "inplace-demean", "self-demean", "attr", "attr", "attr", "fail", "len"]
+            for k in range(nobj):
+                if nrng.integers(0, 4):
+                    check(k)
+            for step in range(int(nrng.integers(6, 15)) * (1 if fl == "walk" else 2)):
+                k = int(nrng.integers(0, nobj))
+                name = allops[int(nrng.integers(0, len(allops)))]
+                if name == "attr":
+                    attr_op(k)
+                elif name == "fail":
+                    ops.append([k, "fail", ["order0", "call-order0", "nfft-bad"][int(nrng.integers(0, 3))]])
+                elif name == "len":
+                    # another record length (the order stays admissible)
+                    n = int(nrng.integers(max(8, 2 * st[k]["m"]), N + 1))
+                    data_op(k, ["set", "set-demean", "set-set"][int(nrng.integers(0, 3))], n)
+                else:
+                    data_op(k, name)
+                if nrng.integers(0, 3):
+                    check(int(nrng.integers(0, nobj)) if fl == "multi" and nrng.integers(0, 2) else k)
+            for k in range(nobj):
+                check(k)
+        else:   # alias
+            for k in range(nobj):
+                if ci % 4 < 2:
+                    check(k)
+                ops.append([k, "mutate-caller"])
+                if ci % 3 == 0:
+                    attr_op(k)
+                check(k)
+                ops.append([k, "set-keep", src()])
+                if ci % 4 >= 2:
+                    check(k, "call")
+                ops.append([k, "mutate-caller"])
+                check(k)
+                ops.append([k, "nfft", st[k]["nfft"] + 3])
+                st[k]["nfft"] += 3
+                check(k)
+        q = {"recs": recs, "init": init, "m": m, "nfft": nfft, "fs": fs, "scale": bool(ci % 3 == 1), "ops": ops, "flavour": fl,
+             "pool": ["temp", "kept"][(ci // 2) % 2]}
+        if amp:
+            q["amp"] = amp
+        # inside the quantifier at every observation: 8 <= N <= 128, 2 <= m <= min(N/2, 16), NFFT >= 2m, non-degenerate Burg error
+        ok = True
+        for j, k, s, mode in _expected_states(q):
+            n_ = len(s["x"])
+            if not (8 <= n_ <= 128 and 2 <= s["m"] <= min(n_ // 2, 16) and s["nfft"] >= 2 * s["m"] and _ok(s["x"], s["m"])):
+                ok = False
+                break
+        if ok:
+            yield ("reuse", q)
